@@ -42,6 +42,7 @@ pub fn run_model_threads<F: Fam>(ctx: &Ctx, prop: &'static str, label: &str, str
     ctx.count(&format!("{}_{label}_terminal_err", F::NAME), stats.finished_err.load(Relaxed));
     ctx.count(&format!("{}_{label}_partial_body_states", F::NAME), stats.partial_body_states.load(Relaxed));
     ctx.count(&format!("{}_{label}_oracle_runs", F::NAME), stats.oracle_runs.load(Relaxed));
+    ctx.count(&format!("{}_{label}_states_differing_from_reference_abstraction", F::NAME), stats.repr_mismatch.load(Relaxed));
     for v in stats.violations.lock().unwrap().iter() {
         ctx.violation(v.key.clone(), v.what.clone(), v.case.clone());
     }
